@@ -16,6 +16,7 @@ import json
 import os
 import random
 import re
+import time
 
 import vlib
 
@@ -100,11 +101,15 @@ def variants(base, rng, n):
     one byte units.  The script is followed as far as it fits (adapted replay)."""
     out = []
     pool = [b for b in base if b["dest"] == "reg"]
+    oci = [b for b in base if b["dest"] == "ocidir"]
     if not pool:
         return out
     for i in range(n):
-        b = copy.deepcopy(pool[rng.randrange(len(pool))])
         kind = ("tail", "koff", "piece", "unit1", "tail+koff")[i % 5]
+        if oci and kind in ("tail", "piece") and i % 4 == 0:
+            b = copy.deepcopy(oci[rng.randrange(len(oci))])
+        else:
+            b = copy.deepcopy(pool[rng.randrange(len(pool))])
         b["id"] = "%s~%s%d" % (b["id"], kind, i)
         if "tail" in kind:
             b["tail"] = rng.choice([1, 188, 511])
@@ -132,20 +137,43 @@ def load_known(ctx):
     return base
 
 
+def robust(fn):
+    """TLC runs of this check were seen to be terminated from outside (SIGTERM, rc 143) while many
+    checks share the machine; such a run says nothing, so it is repeated (twice at most)."""
+    def wrapped(*a, **kw):
+        for attempt in range(3):
+            try:
+                return fn(*a, **kw)
+            except vlib.ToolError as e:
+                if attempt == 2 or not re.search(r"rc=(143|137|-15|-9)\b", str(e)):
+                    raise
+                vlib.log("C05: TLC run was killed from outside, repeating it")
+    return wrapped
+
+
 def run(ctx):
     ctx.load_known = lambda: load_known(ctx)
+    ctx.tlc = robust(ctx.tlc)
     rng = random.Random(ctx.seed)
     thorough = ctx.thorough
+    t0 = time.time()
+    def lap(what):
+        vlib.log("C05 [%6.1fs] %s" % (time.time() - t0, what))
     ctx.build("c05drv")
+    lap("driver built")
 
     # ------------------------------------------------------------ 1. model checking of (D)
     mc = []
     if thorough:
         mc.append(ctx.tlc("BlobPutMC", "C05_mc_thorough.cfg", timeout=3000,
-                          label="len 0-7, chunk 1-3, BlobMax -1/2/4, min none/2/3, 2 partial, 2 faults"))
+                          label="len 0-7, chunk 1-3, BlobMax -1/2/4, min none/2/3 (enforced or not), 2 partial, no fault"))
+        mc.append(ctx.tlc("BlobPutMC", "C05_mc_thorough1.cfg", timeout=3000,
+                          label="len 0-6, chunk 1-3, BlobMax -1/2/4, min none/2/3, 2 partial, 1 fault"))
+        mc.append(ctx.tlc("BlobPutMC", "C05_mc_faults.cfg", timeout=3000,
+                          label="len 0-5, chunk 1-3, BlobMax -1/2, min none/2 enforced, 1 partial, 2 faults"))
     else:
         mc.append(ctx.tlc("BlobPutMC", "C05_mc_quick.cfg", timeout=900,
-                          label="len 0-5, chunk 1-2, BlobMax -1/2, min none/2, 2 partial, 1 fault"))
+                          label="len 0-4, chunk 1-3, BlobMax -1/2, min none/2 enforced, 2 partial, 1 fault"))
     mc.append(ctx.tlc("BlobPutMC", "C05_live.cfg", timeout=1500, label="termination (liveness)", workers=8))
     # expected counterexamples: facts about the design that the checks below rely on
     r = ctx.tlc("BlobPutMC", "C05_mc_known_mount.cfg", allow_violation=True,
@@ -157,19 +185,21 @@ def run(ctx):
                 label="expected: chunks shrink after a partial acceptance (S13)")
     if r["violated"] != "NoMinViolation":
         raise vlib.ToolError("BlobPut.tla no longer shows the shrinking chunk buffer (S13)")
+    lap("design spec checked")
     states = sum(x["distinct"] for x in mc)
     trans = sum(x["generated"] for x in mc)
 
     # ------------------------------------------------------------ 2. scenarios from TLC
     tlc_scns = []
     for cfg, label in (("C05_gen_core.cfg", "all partial acceptances, small space"),
-                       ("C05_gen_decl.cfg", "descriptors x mount/refuse/fall-back, both destinations")):
+                       ("C05_gen_decl.cfg", "descriptors x mount/refuse/fall-back, both destinations"),
+                       ("C05_gen_s13.cfg", "enforced minimum chunk length + partial acceptance (S13, safety only)")):
         g = ctx.tlc_scenarios("BlobPutGen", cfg, workers=8, label="generator " + label)
         got = sorted(g["scenarios"], key=lambda x: json.dumps(x, sort_keys=True))
         for s in got:
             s["src"] = cfg[4:-4]
         tlc_scns += got
-    nsim = 12000 if thorough else 1200
+    nsim = 12000 if thorough else 1000
     g = ctx.tlc_scenarios("BlobPutGen", "C05_gen.cfg", workers=1, simulate="num=%d" % nsim, depth=500,
                           extra=["-seed", str(ctx.seed)], label="generator random behaviours")
     for s in g["scenarios"]:
@@ -194,7 +224,7 @@ def run(ctx):
         drv.append(d)
         model[sid] = s
     exact_ids = set(model)
-    var = variants([d for d in drv if d["id"].startswith(("gen_core", "gen_sim"))], rng, 3000 if thorough else 500)
+    var = variants([d for d in drv if d["id"].startswith(("gen_core", "gen_sim"))], rng, 3000 if thorough else 400)
     drv += var
 
     scn_file = ctx.path("c05", "scn.jsonl")
@@ -204,6 +234,7 @@ def run(ctx):
     out = ctx.path("c05", "traces.jsonl")
     ctx.run(["c05drv", "-in", scn_file, "-out", out, "-dir", ctx.path("c05", "layouts", "x")], timeout=1500)
     raw = load_traces(out)
+    lap("%d scenarios generated and executed on the real code" % len(drv))
     if len(raw) != len(drv):
         raise vlib.ToolError("driver returned %d traces for %d scenarios" % (len(raw), len(drv)))
 
@@ -238,6 +269,11 @@ def run(ctx):
         kinds.add(json.dumps([sc["dest"], sc["decl"], sc["seek"], sc["exists"], t["header"]["len"],
                               [(e["ev"], e.get("status"), e.get("acc")) for e in t["events"]]]))
 
+    # S13 (informational): uploads that a destination enforcing its minimum refused after it had
+    # accepted a chunk partially; (P) does not demand success there
+    s13 = sum(1 for t in traces if t["id"].startswith("gen_s13") and t["events"][-1]["ok"] == 0
+              and any(e.get("why") == "minlen" for e in t["events"]))
+
     # ------------------------------------------------------------ 4. trace validation against (P)
     # Scenarios in the input class of the known finding C05-1 (mismatching descriptor + accepted
     # mount) are each rejected by (P); as long as the finding is open only a few of them are
@@ -267,6 +303,7 @@ def run(ctx):
             detail, json.dumps(r["event"]), t["id"], t["scenario"]["decl"], t["scenario"]["seek"], t["header"]["len"])
         ctx.report(sig, what, {"scenario": t["scenario"], "header": t["header"], "events": t["events"],
                                "rejected_at": r["line"], "cmd": "tools/check C05 --replay <this file>"})
+    lap("traces validated")
     if stalls and not rejected:
         raise vlib.ToolError("driver stalled in: " + ", ".join(stalls[:5]))
 
@@ -319,7 +356,7 @@ def run(ctx):
                 "(destination, descriptor kind, source kind, pre-existing content, length, server event sequence)",
         "exhaustive": False,
         "tlc_scenarios": len(tlc_scns), "replayed_exactly": exact, "byte_level_variants": adapted,
-        "model_drift": drift, "rejected": len(rejected), "skipped_known_finding_class": skipped_known, "binding_demos_rejected": demos,
+        "model_drift": drift, "rejected": len(rejected), "s13_refusals_observed": s13, "skipped_known_finding_class": skipped_known, "binding_demos_rejected": demos,
         "entry_points": ["regclient.BlobPut", "scheme/reg.(*Reg).BlobPut", "scheme/ocidir.(*OCIDir).BlobPut"],
     }
     assumptions = [
